@@ -699,7 +699,6 @@ type c35State struct {
 	mu   sync.Mutex
 	best map[string]c35Finding // violation key -> shortest counterexample
 	more map[string][]string   // violation key -> a few more counterexamples (dump only)
-	nj   map[string]int64      // not-judged reason -> count
 	cnt  map[string]int64
 	pool chan *c35Oracle
 	dead error
@@ -1039,7 +1038,7 @@ func (st *c35State) specCorpus() {
 
 func TestVerifC35(t *testing.T) {
 	vk.Run(t, "C35", "exploration", func(c *vk.Ctx) {
-		st := &c35State{c: c, best: map[string]c35Finding{}, nj: map[string]int64{}, cnt: map[string]int64{},
+		st := &c35State{c: c, best: map[string]c35Finding{}, cnt: map[string]int64{},
 			diffs: map[string]string{}, intern: map[string]string{}}
 		if os.Getenv("VERIF_C35_DUMP") != "" {
 			st.more = map[string][]string{}
@@ -1055,11 +1054,12 @@ func TestVerifC35(t *testing.T) {
 		}
 		c.Rule("the 652 CommonMark spec examples shipped in pkg/md/spec, then per family every token sequence up to the bound, length-lexicographic within a shard; families: " +
 			strings.Join(desc, "; ") + ". class = (family, verdict kind [= compared equal / N:reason not judged / T totality only / X differs], reference flags, set of HTML element kinds in elvish's output)")
-		c.Assume("the CommonMark reference is markdown-it-py 4.0.0 (preset 'commonmark'); it is validated at the start of every run against the 652 spec examples in pkg/md/spec/spec.json",
-			"'lists are always loose' is applied on the reference side by un-hiding the paragraph tokens of tight lists before rendering; setext headings and link reference definitions are detected from the reference parser's token stream",
-			"insignificant serialisation = the newline after <li> and <blockquote>; nothing else is normalised",
+		c.Assume("the CommonMark reference is markdown-it-py 4.0.0 (preset 'commonmark', URL re-serialisation replaced by plain percent-encoding); it is validated at the start of every run against the 652 spec examples in pkg/md/spec/spec.json",
+			"'lists are always loose' is applied on the reference side by un-hiding the paragraph tokens of tight lists before rendering; setext headings and link reference definitions are detected from the reference parser's token stream; the reference is given the document with its last line terminated",
+			"documents on which the reference itself departs from the CommonMark 0.31.2 text, or on which the spec is silent, are not judged (counters not_judged:reference-* and not_judged:unspecified-*); each such rule was established from the spec text and a second implementation",
+			"insignificant serialisation = the newline after <li> and <blockquote>, blank space before </li>, </blockquote> or the end of the output, raw versus percent-encoded non-ASCII bytes in href/src; nothing else is normalised",
 			"totality is observed as: md.RenderString returns (a case running > 300 s is reported as non-termination) and does not panic",
-			"link destinations in the enumerated documents are ASCII (elvish leaves non-ASCII URL bytes unescaped, the reference percent-encodes them; treated as serialisation and not enumerated)")
+			"of the differing documents only the 1-minimal ones (no single token can be deleted without losing the difference) are reported; the others are counted under differences")
 
 		// start the oracle pool
 		nw := vk.Workers()
@@ -1112,6 +1112,9 @@ func TestVerifC35(t *testing.T) {
 				c.Capped("VERIF_C35_DEEP: one-off run of selected families")
 			}
 			st.explore(f, n)
+			if len(f.alpha) > 7 && n >= 3 {
+				c.Sample(f.prefix + f.alpha[1] + f.alpha[len(f.alpha)/2] + f.alpha[7]) // one of the enumerated documents
+			}
 			fmt.Printf("INFO property=C35 family %s done in %.1fs\n", f.name, time.Since(t0).Seconds())
 		}
 		if st.dead != nil {
@@ -1138,12 +1141,6 @@ func TestVerifC35(t *testing.T) {
 		sort.Strings(ck)
 		for _, k := range ck {
 			c.Set(k, st.cnt[k])
-		}
-		c.Sample("# a\n\n- *b* `c`")
-		for i, k := range keys {
-			if i < 6 {
-				c.Sample(st.best[k].doc)
-			}
 		}
 	})
 }
